@@ -14,6 +14,7 @@ import Drv.Injector
 import Drv.Bist
 import Drv.Adapter
 import Drv.DramFifo
+import Drv.Avalon
 open DrvUtil
 
 def main (args : List String) : IO UInt32 := do
@@ -35,6 +36,7 @@ def main (args : List String) : IO UInt32 := do
   | ["dramfifo"] => foldLines i o none drvDramFifo; return 0
   | ["fifomon"] => foldLines i o none drvFifoMon; return 0
   | ["fifowitness"] => mapLines i o drvFifoWitness; return 0
+  | ["avalon"] => foldLines i o none drvAvalon; return 0
   | ["injector"] => foldLines i o none drvInjector; return 0
   | ["ratemon"] => foldLines i o none drvRateMon; return 0
   | ["rateconv"] => foldLines i o none drvRateConv; return 0
